@@ -36,10 +36,11 @@ impl TableBuilder for Program {
             if let GlobalEntry::Procedure(main) = &entry {
                 if !main.parameters.is_empty() {
                     // the name's range is relative to its declaration
-                    self.info.append_error(SplError(
-                        main.name.to_range().shift(main.range.start),
-                        BuildErrorMessage::MainMustNotHaveParameters.into(),
-                    ));
+                    self.info.append_error(
+                        main.name
+                            .to_error(|_| BuildErrorMessage::MainMustNotHaveParameters)
+                            .shift(main.range.start),
+                    );
                 }
             } else {
                 panic!("'main' must be a procedure");
@@ -66,10 +67,8 @@ impl TableBuilder for TypeDeclaration {
         let range = self.to_range().shift(offset);
         if let Some(name) = self.name.as_mut() {
             if name.value == "main" {
-                name.info.append_error(SplError(
-                    name.to_range(),
-                    BuildErrorMessage::MainIsNotAProcedure.into(),
-                ));
+                name.info
+                    .append_error(name.to_error(|_| BuildErrorMessage::MainIsNotAProcedure));
                 return;
             }
             let documentation = get_documentation(&self.doc);
